@@ -14,6 +14,7 @@ import Driver.SaveLoadDom
 import Driver.ChangeSetDom
 import Driver.ConcDom
 import Driver.JoinDom
+import SpecsModel.Lemmas.LedgerWorld
 import Std.Data.HashSet
 import Std.Data.HashMap
 open SpecsModel SpecsModel.Driver
@@ -33,6 +34,12 @@ structure WState where
   pendingFault : Option Nat := none  -- C19: `fault N` seen, applies to the next operation
   faults : Nat := 0
   leaked : Nat := 0
+  -- stand-alone C08 ledger (conclusion of `C08.ledger_balances` evaluated on the implementation's transcript;
+  -- independent of the map monitor, so it keeps running after that one has rejected the case)
+  lgHeld : List Int := []       -- non-zero tokens moved in and not yet handed back / destroyed
+  lgDeferred : List Int := []   -- destroyed list of the last top-level line (settled after its nested lines)
+  lgDead : Bool := false        -- rejected already, or a destructor fault was injected (C19's business)
+  lgChecks : Nat := 0
   -- statistics
   cases : Nat := 0
   lines : Nat := 0
@@ -50,11 +57,28 @@ structure WState where
   distinct : Std.HashSet UInt64 := {}
   distinctNontrivial : Nat := 0
 
+/-- Removes one occurrence of each element of `out` from `held`; the first element that is not there is returned. -/
+def lgRemove (held out : List Int) : List Int × Option Int :=
+  out.foldl (fun (acc : List Int × Option Int) x =>
+    match acc.2 with
+    | some _ => acc
+    | none => if acc.1.contains x then (acc.1.erase x, none) else (acc.1, some x)) (held, none)
+
+/-- Settles the deferred destroyed list. -/
+def WState.lgSettle (st : WState) (what : String) : WState × List String :=
+  if st.lgDead then (st, []) else
+  match lgRemove st.lgHeld st.lgDeferred with
+  | (held, none) => ({ st with lgHeld := held, lgDeferred := [] }, [])
+  | (_, some x) =>
+    ({ st with lgDead := true, mons := st.mons + 1 },
+     [s!"MON C08 case={st.caseId} line={st.lineNo} C08 value {x} was destroyed although it is not held (destroyed twice, destroyed after being handed back, or never moved in) op=[{what}] impl=[]"])
+
 /-- Close the current case: count it if its op script is new and it hit an interesting branch
     (index reuse, failed deletion, access through a dead handle, nested script, event, destruction). -/
 def WState.closeCase (st : WState) : WState × List String :=
   if st.lineNo = 0 then (st, []) else
   -- end-of-case checks
+  let (st, outs0) := st.lgSettle "end-of-case"
   let (st, outs) :=
     if st.monDead then (st, []) else
     match st.mon.finishMaintain with
@@ -70,7 +94,7 @@ def WState.closeCase (st : WState) : WState × List String :=
     if st.distinct.contains st.caseHash then st
     else { st with distinct := st.distinct.insert st.caseHash,
                    distinctNontrivial := st.distinctNontrivial + (if st.caseNontrivial then 1 else 0) }
-  (st, outs ++ outs2)
+  (st, outs0 ++ outs ++ outs2)
 
 def splitLedger (r : String) : String × Option (List Int) :=
   match r.splitOn " ! d" with
@@ -141,7 +165,7 @@ def worldLine (st : WState) (line : String) : WState × List String :=
   | ["case", id] =>
     let (st, outs) := st.closeCase
     ({ st with caseHash := 7, caseNontrivial := false, caseId := id, lineNo := 0, model := {},
-               diverged := false, pending := [], mon := {}, monDead := false, afterMaint := false, afterRjoin := false, pendingFault := none, leaked := st.leaked + st.mon.leaked, cases := st.cases + 1 }, outs)
+               diverged := false, pending := [], mon := {}, monDead := false, lgHeld := [], lgDeferred := [], lgDead := false, afterMaint := false, afterRjoin := false, pendingFault := none, leaked := st.leaked + st.mon.leaked, cases := st.cases + 1 }, outs)
   | lt =>
     let (r, ledger) := splitLedger r0
     let st := { st with lineNo := st.lineNo + 1, lines := st.lines + 1,
@@ -155,7 +179,7 @@ def worldLine (st : WState) (line : String) : WState × List String :=
     match lt, toks r with
     | ["fault", n], _ =>
       (match n.toNat? with
-       | some n => ({ st with pendingFault := some n, faults := st.faults + 1, caseNontrivial := true,
+       | some n => ({ st with pendingFault := some n, faults := st.faults + 1, caseNontrivial := true, lgDead := true,
                               mon := { st.mon with fault := some n } }, [])
        | none => (st, [s!"BAD case={st.caseId} line={st.lineNo} unparsable fault line"]))
     | ["dump"], rts =>
@@ -266,7 +290,32 @@ def worldLine (st : WState) (line : String) : WState × List String :=
               ({ st with monDead := true, mons := st.mons + 1 },
                [s!"MON {tag} case={st.caseId} line={st.lineNo} {why} op=[{shown}] impl=[{r}]"] ++ extra)
         let st := if nestedTag.isNone && faultNow.isSome then { st with pendingFault := none } else st
-        (st, out1 ++ out2)
+        -- 3. stand-alone ledger (C08), only in ledger mode (top-level lines carry `! d …`)
+        let (st, out3) :=
+          if st.lgDead || (ledger.isNone && nestedTag.isNone) then (st, []) else
+          let shown := match nestedTag with
+            | some t => s!"in {t} {l}"
+            | none => l
+          let (st, o1) := if nestedTag.isNone then st.lgSettle shown else (st, [])
+          if st.lgDead then (st, o1) else
+          let held := st.lgHeld ++ nz (opIn op ires)
+          match lgRemove held (nz (opOut op ires)) with
+          | (_, some x) =>
+            ({ st with lgDead := true, mons := st.mons + 1 },
+             o1 ++ [s!"MON C08 case={st.caseId} line={st.lineNo} C08 value {x} was handed back although it is not held (handed back twice, or after it was destroyed) op=[{shown}] impl=[{r}]"])
+          | (held, none) =>
+            let st := { st with lgHeld := held, lgChecks := st.lgChecks + 1,
+                                lgDeferred := if nestedTag.isNone then nz (ledger.getD []) else st.lgDeferred }
+            match op, nestedTag with
+            | .dropWorld, none =>
+              let (st, o2) := st.lgSettle shown
+              if st.lgDead then (st, o1 ++ o2) else
+              if st.lgHeld.isEmpty then (st, o1 ++ o2)
+              else
+                ({ st with lgDead := true, mons := st.mons + 1 },
+                 o1 ++ o2 ++ [s!"MON C08 case={st.caseId} line={st.lineNo} C08 values {st.lgHeld} were moved into the world and neither handed back nor destroyed although the world was dropped (leak) op=[{shown}] impl=[{r}]"])
+            | _, _ => (st, o1)
+        (st, out1 ++ out2 ++ out3)
 
 partial def worldLoop (h : IO.FS.Stream) (st : WState) : IO WState := do
   let line ← h.getLine
